@@ -1,5 +1,333 @@
-// C19 fault enumeration (placeholder; filled in below)
+// C19 fault enumeration: every allocating operation kind x operand storage classes x every allocation index.
+//
+// A *cell* is (operation kind, overload/variant, element type, storage class of every operand).  For each cell a
+// small plan builds fresh operands, runs the operation once counting the k allocations library code attempts
+// inside it, and then re-runs the same plan k times with "allocation i throws" (i = 1..k).  Every plan ends with an
+// epilogue that reads, re-assigns and (at teardown) destroys every object, and the usual invariants are evaluated
+// after every step.
 #include "run.h"
+#include "textarg.h"
+#include <functional>
+
 namespace A {
-void enum_c19(unsigned, unsigned, EnumVisit, void *, EnumTotals &) {}
+
+namespace {
+
+const uint32_t LC16[] = {0, 5, 15, 16, 40};
+const uint32_t LC12[] = {0, 5, 11, 12, 40};
+const uint32_t SSZ[] = {0, 100, 256, 300, 1500};
+const uint32_t SADD[] = {1, 200, 700};
+const uint32_t SRC = 3;
+
+struct Builder {
+    Plan p;
+    unsigned nstr = 0, nb[4] = {0, 0, 0, 0}, nss = 0, nvec = 0;
+    Builder() {
+        p.k.prop = P_C19; p.k.seed = 19; p.k.data_seed = 1919; p.k.pool_cap = 12; p.k.heap_policy = 0;
+        p.k.fill_fresh = 0xA5; p.k.fill_freed = 0xDD; p.k.text_mix = 2; p.k.strict = 0;
+    }
+    uint32_t str(uint32_t len) { Op o; o.kind = S_CONSTRUCT; o.b = SRC; o.c = len; o.d = SK_PTRLEN; p.ops.push_back(o); return nstr++; }
+    uint32_t buf(int t, uint32_t len) { Op o; o.kind = B_NEW_PTRLEN; o.t = (uint8_t)t; o.a = SRC + 1; o.b = len; p.ops.push_back(o); return nb[t]++; }
+    uint32_t ss(uint32_t len) {
+        Op o; o.kind = SS_NEW; p.ops.push_back(o);
+        if (len) { Op a; a.kind = SS_APPEND; a.a = nss; a.b = SRC; a.c = len; p.ops.push_back(a); }
+        return nss++;
+    }
+    uint32_t vec(uint32_t len) { uint32_t s = str(len); Op o; o.kind = S_TOKENIZE; o.a = s; o.b = 5; p.ops.push_back(o); return nvec++; }
+    size_t target(const Op &o) { p.ops.push_back(o); return p.ops.size() - 1; }
+    void epilogue() {
+        for (unsigned i = 0; i < nstr + 1; i++) {
+            Op r; r.kind = S_READ; r.a = i; r.b = 2; p.ops.push_back(r);
+            Op a; a.kind = S_ASSIGN; a.a = i; a.b = SRC + 2; a.c = 20; a.d = SK_CSTR; p.ops.push_back(a);
+        }
+        for (int t = 0; t < 4; t++)
+            for (unsigned i = 0; i < nb[t] + 1; i++) {
+                Op r; r.kind = B_READ; r.t = (uint8_t)t; r.a = i; r.b = 2; p.ops.push_back(r);
+                Op a; a.kind = B_ALLOCATE_FILL; a.t = (uint8_t)t; a.a = i; a.b = 20; a.c = 7; p.ops.push_back(a);
+            }
+        for (unsigned i = 0; i < nss + 1; i++) {
+            Op r; r.kind = SS_READ; r.a = i; p.ops.push_back(r);
+            Op a; a.kind = SS_APPEND; a.a = i; a.b = SRC; a.c = 300; p.ops.push_back(a);
+        }
+    }
+};
+
+struct Enumerator {
+    unsigned part, parts; EnumVisit visit; void *user; EnumTotals &tot;
+    uint64_t counter = 0, from = 0; bool stop = false;
+
+    void cell(const std::string &name, Builder &b, size_t tstep) {
+        if (stop) return;
+        uint64_t me = counter++;
+        if ((me % parts) != part || me < from) return;
+        g_run_index = me;
+        b.epilogue();
+        RunResult base = run_plan(b.p, nullptr, true);
+        if (tstep >= base.allocs.size()) {
+            // the baseline did not get as far as the target (a violation in the setup): report through the visitor
+            tot.cells++; tot.executions++;
+            if (!visit(b.p, name.c_str(), 0, 0, user)) stop = true;
+            return;
+        }
+        if (base.skipped[tstep]) return;
+        unsigned k = base.allocs[tstep];
+        tot.cells++; tot.alloc_points += k; tot.executions += 1 + k; tot.max_k = std::max<uint64_t>(tot.max_k, k);
+        if (!visit(b.p, name.c_str(), k, 0, user)) { stop = true; return; }
+        for (unsigned i = 1; i <= k && !stop; i++) {
+            Plan q = b.p;
+            q.ops[tstep].fault |= F_ALLOC; q.ops[tstep].fa = i;
+            if (!visit(q, name.c_str(), k, i, user)) stop = true;
+        }
+    }
+};
+
+std::string nm(const char *op, const std::string &variant, const std::string &classes) { return std::string(op) + "/" + variant + "/" + classes; }
+char L(uint32_t n, unsigned lim) { return cls_letter(n, lim); }
+
+bool pool_kind(unsigned sk) { return sk == SK_CBUF_L || sk == SK_CBUF_R || sk == SK_WBUF || sk == SK_16BUF || sk == SK_32BUF || sk == SK_STR_COPY || sk == SK_STR_MOVE; }
+int pool_type(unsigned sk) { return sk == SK_WBUF ? 1 : sk == SK_16BUF ? 2 : sk == SK_32BUF ? 3 : 0; }
+bool wide12(unsigned sk) { return sk == SK_W || sk == SK_WN || sk == SK_32 || sk == SK_32N || sk == SK_WBUF || sk == SK_32BUF || sk == SK_WSTR || sk == SK_32STR || sk == SK_WSV || sk == SK_32SV; }
+
+// text-argument operations: S_CONSTRUCT / S_FROM / S_ASSIGN / S_SET / S_APPEND / S_PLUS
+void text_ops(Enumerator &E) {
+    static const unsigned APPENDK[] = {SK_CSTR, SK_W, SK_16, SK_32, SK_C8, SK_STR_COPY, SK_NULL};
+    struct How { uint16_t kind; const char *name; bool has_target; };
+    const How hows[] = {{S_CONSTRUCT, "construct", false}, {S_FROM, "from", false}, {S_ASSIGN, "assign", true}, {S_SET, "set", true},
+                        {S_APPEND, "append", true}, {S_PLUS, "plus", true}};
+    for (const How &h : hows) {
+        bool seven = h.kind == S_APPEND || h.kind == S_PLUS;
+        unsigned nk = seven ? 7 : (unsigned)SK__COUNT;
+        for (unsigned ki = 0; ki < nk; ki++) {
+            unsigned sk = seven ? APPENDK[ki] : ki;
+            if (h.kind == S_FROM && (sk == SK_STR_COPY || sk == SK_STR_MOVE || sk == SK_NULL)) continue;
+            unsigned nvar = h.kind == S_FROM ? 3 : h.kind == S_SET ? 2 : h.kind == S_PLUS ? 2 : 1;
+            for (unsigned var = 0; var < nvar; var++) {
+                if ((h.kind == S_FROM || h.kind == S_SET) && var >= 1 && ki >= 3) continue;      // validated / latin1 variants: 3 source forms
+                for (unsigned mode = 0; mode < 3; mode++) {
+                    if (mode && !(h.kind == S_CONSTRUCT && (sk == SK_PTRLEN || sk == SK_CBUF_L || sk == SK_CBUF_R || sk == SK_16N || sk == SK_32BUF))) continue;
+                    for (int corrupt = 0; corrupt < 2; corrupt++) {
+                        if (corrupt && (pool_kind(sk) || sk == SK_NULL || var || mode)) continue;
+                        const uint32_t *AC = wide12(sk) ? LC12 : LC16;
+                        for (int ai = 0; ai < 5; ai++) {
+                            if (sk == SK_NULL && ai) continue;
+                            for (int ti = 0; ti < (h.has_target ? 5 : 1); ti++) {
+                                Builder b;
+                                uint32_t tsel = h.has_target ? b.str(LC16[ti]) : 0;
+                                uint32_t bsel = SRC + 4;
+                                if (pool_kind(sk)) {
+                                    if (sk == SK_STR_COPY || sk == SK_STR_MOVE) bsel = b.str(AC[ai]);
+                                    else bsel = b.buf(pool_type(sk), AC[ai]);
+                                }
+                                Op o; o.kind = h.kind; o.a = tsel; o.b = bsel; o.c = AC[ai];
+                                o.d = (h.kind == S_APPEND || h.kind == S_PLUS) ? ki : sk;
+                                if (h.kind == S_PLUS) o.d |= var << 8;
+                                else o.d |= (mode << 8) | (var << 12);
+                                if (corrupt) { o.fault = F_CORRUPT; o.fc = (AC[ai] / 2) << 8 | 1; }
+                                size_t ts = b.target(o);
+                                char cls[32]; std::snprintf(cls, sizeof cls, "dst=%c,arg=%c", h.has_target ? L(LC16[ti], 16) : '-', L(AC[ai], wide12(sk) ? 12 : 16));
+                                E.cell(nm(h.name, std::string(SK_kind_name(sk)) + ",var" + std::to_string(var) + ",mode" + std::to_string(mode) + (corrupt ? ",corrupted" : ""), cls), b, ts);
+                            }
+                        }
+                    }
+                }
+            }
+        }
+    }
+    // self-referential forms
+    for (int ti = 0; ti < 5; ti++) {
+        for (unsigned form = 0; form < 3; form++) {
+            Builder b; uint32_t s = b.str(LC16[ti]);
+            Op o; o.a = s; o.b = s;
+            if (form == 0) { o.kind = S_ASSIGN; o.d = SK_STR_COPY; } else if (form == 1) { o.kind = S_APPEND; o.d = 5; } else { o.kind = S_PLUS; o.d = 5; }
+            size_t ts = b.target(o);
+            E.cell(nm(form == 0 ? "assign" : form == 1 ? "append" : "plus", "self", std::string("dst=") + L(LC16[ti], 16)), b, ts);
+        }
+    }
 }
+
+void char_ops(Enumerator &E) {
+    static const uint32_t CPS[] = {0x41, 0xE9, 0x20AC, 0x1F600};
+    for (int plus = 0; plus < 2; plus++)
+        for (unsigned w = 0; w < 4; w++)
+            for (unsigned left = 0; left < (plus ? 2u : 1u); left++)
+                for (uint32_t cp : CPS)
+                    for (int corrupt = 0; corrupt < 2; corrupt++)
+                        for (int ti = 0; ti < 5; ti++) {
+                            if (corrupt && cp != 0x41) continue;
+                            Builder b; uint32_t s = b.str(LC16[ti]);
+                            Op o; o.kind = plus ? S_PLUS_CH : S_APPEND_CH; o.a = s; o.b = cp; o.c = w | (left << 2);
+                            if (corrupt) { o.fault = F_CORRUPT; o.fc = 1 | (5 << 8); }
+                            size_t ts = b.target(o);
+                            char v[64]; std::snprintf(v, sizeof v, "w%u,%s,U+%X%s", w, left ? "left" : "right", cp, corrupt ? ",invalid" : "");
+                            E.cell(nm(plus ? "plus_ch" : "append_ch", v, std::string("dst=") + L(LC16[ti], 16)), b, ts);
+                        }
+}
+
+void misc_string_ops(Enumerator &E) {
+    // one string operand (+ optional second), variants listed per kind
+    struct K { uint16_t kind; const char *name; unsigned nvar; };
+    const K ks[] = {{S_SUBSTR, "substr", 8}, {S_TRIM, "trim", 3}, {S_CASE, "case", 2}, {S_TOKENIZE, "tokenize", 1}, {S_TO_BUF, "to_buf", 6},
+                    {S_TO_STD, "to_std", 10}, {S_CODEC, "codec", 4}, {S_FROM_NUM, "from_num", 11}, {S_LITERAL, "literal", 5}, {S_FILL, "fill", 1},
+                    {S_NEW_DEFAULT, "new_default", 1}, {S_CLEAR, "clear", 1}, {S_HASH, "hash", 1}, {S_READ, "read", 5}};
+    for (const K &k : ks)
+        for (unsigned var = 0; var < k.nvar; var++)
+            for (int ti = 0; ti < 5; ti++) {
+                Builder b;
+                Op o; o.kind = k.kind;
+                switch (k.kind) {
+                case S_SUBSTR: o.a = b.str(LC16[ti]); o.b = (var & 1) ? 1 : 0; o.c = (var & 1) ? 1003 : 1004; o.d = (var >> 1) << 1; break;
+                case S_TRIM: o.a = b.str(LC16[ti]); o.b = var; o.c = 2; break;
+                case S_CASE: o.a = b.str(LC16[ti]); o.b = var; break;
+                case S_TOKENIZE: o.a = b.str(LC16[ti] * 3); o.b = 5; break;
+                case S_TO_BUF: o.a = b.str(LC16[ti]); o.b = var; break;
+                case S_TO_STD: o.a = b.str(LC16[ti]); o.b = var; break;
+                case S_CODEC: o.a = b.str(LC16[ti]); o.b = var; break;
+                case S_FROM_NUM: if (ti > 1) continue; o.a = ti ? 24 : 3; o.b = var; o.c = ti ? 2 : 0; break;
+                case S_LITERAL: o.b = SRC; o.c = LC16[ti]; o.d = var; break;
+                case S_FILL: o.a = LC16[ti]; o.b = 33; break;
+                case S_NEW_DEFAULT: if (ti) continue; break;
+                default: o.a = b.str(LC16[ti]); o.b = var; break;
+                }
+                size_t ts = b.target(o);
+                E.cell(nm(k.name, "var" + std::to_string(var), std::string("arg=") + L(LC16[ti], 16)), b, ts);
+            }
+    // two-string operations: before/after, replace, split, compare, find, format
+    for (int ti = 0; ti < 5; ti++)
+        for (int ai = 1; ai < 5; ai++) {
+            for (unsigned which = 0; which < 4; which++)
+                for (unsigned ov = 0; ov < 3; ov++) {
+                    Builder b; uint32_t s = b.str(LC16[ti]); uint32_t n = b.str(LC16[ai]);
+                    Op o; o.kind = S_BEFORE_AFTER; o.a = s; o.b = ov == 2 ? n : 2; o.c = which; o.d = ov | ((ov == 2 ? 0u : 1u) << 3);
+                    size_t ts = b.target(o);
+                    E.cell(nm("before_after", "which" + std::to_string(which) + ",ov" + std::to_string(ov), std::string("obj=") + L(LC16[ti], 16) + ",sep=" + L(LC16[ai], 16)), b, ts);
+                }
+            for (unsigned ov = 0; ov < 4; ov++)
+                for (unsigned match = 0; match < 2; match++) {
+                    Builder b; uint32_t s = b.str(LC16[ti]); uint32_t t2 = b.str(LC16[ai]);
+                    Op o; o.kind = S_REPLACE; o.a = s; o.b = match ? 2 : t2; o.c = t2; o.d = ov | ((match ? 1u : 0u) << 3) | (0u << 5);
+                    size_t ts = b.target(o);
+                    E.cell(nm("replace", "ov" + std::to_string(ov) + (match ? ",match" : ",pool"), std::string("obj=") + L(LC16[ti], 16) + ",to=" + L(LC16[ai], 16)), b, ts);
+                }
+            for (unsigned ov = 0; ov < 3; ov++) {
+                Builder b; uint32_t s = b.str(LC16[ti] * 3); uint32_t t2 = b.str(LC16[ai]);
+                Op o; o.kind = S_SPLIT; o.a = s; o.b = ov == 2 ? t2 : 1; o.c = (ai & 1) ? 1004 : 2; o.d = ov | ((ov == 2 ? 0u : 1u) << 3);
+                size_t ts = b.target(o);
+                E.cell(nm("split", "ov" + std::to_string(ov), std::string("obj=") + L(LC16[ti] * 3, 16) + ",sep=" + L(LC16[ai], 16)), b, ts);
+            }
+            for (unsigned fi = 0; fi < 11; fi++)
+                for (unsigned var = 0; var < 4; var++) {
+                    if (var && fi > 2) continue;
+                    Builder b; uint32_t s = b.str(LC16[ti]); uint32_t t2 = b.str(LC16[ai]);
+                    Op o; o.kind = S_FORMAT; o.a = s; o.b = t2; o.c = fi; o.d = var;
+                    size_t ts = b.target(o);
+                    E.cell(nm("format", "fmt" + std::to_string(fi) + ",var" + std::to_string(var), std::string("a1=") + L(LC16[ti], 16) + ",a2=" + L(LC16[ai], 16)), b, ts);
+                }
+            for (unsigned bad = 0; bad < 8; bad++) {
+                Builder b; uint32_t s = b.str(LC16[ti]); uint32_t t2 = b.str(LC16[ai]);
+                Op o; o.kind = S_FORMAT; o.a = s; o.b = t2; o.c = 0; o.d = 0; o.fault = F_CORRUPT; o.fc = bad;
+                size_t ts = b.target(o);
+                E.cell(nm("format", "bad" + std::to_string(bad), std::string("a1=") + L(LC16[ti], 16) + ",a2=" + L(LC16[ai], 16)), b, ts);
+            }
+        }
+    // to_buffer into an existing buffer, decode into an existing buffer, vector elements
+    for (int ti = 0; ti < 5; ti++)
+        for (int di = 0; di < 5; di++) {
+            for (unsigned which = 0; which < 6; which++) {
+                int t = which == 1 ? 2 : which == 2 ? 3 : which == 3 ? 1 : 0;
+                Builder b; uint32_t s = b.str(LC16[ti]); uint32_t d = b.buf(t, (t == 1 || t == 3) ? LC12[di] : LC16[di]);
+                Op o; o.kind = S_TO_BUFFER_INTO; o.a = s; o.b = d; o.c = which;
+                size_t ts = b.target(o);
+                E.cell(nm("to_buffer_into", "which" + std::to_string(which), std::string("obj=") + L(LC16[ti], 16) + ",dst=" + L(LC16[di], 16)), b, ts);
+            }
+            for (unsigned b64 = 0; b64 < 2; b64++)
+                for (int corrupt = 0; corrupt < 2; corrupt++) {
+                    Builder b; uint32_t d = b.buf(0, LC16[di]);
+                    Op o; o.kind = S_DECODE; o.a = d; o.b = SRC; o.c = LC16[ti]; o.d = b64;
+                    if (corrupt) { o.fault = F_CORRUPT; o.fc = 1 | (3 << 8); }
+                    size_t ts = b.target(o);
+                    E.cell(nm("decode", std::string(b64 ? "base64" : "hex") + (corrupt ? ",corrupted" : ""), std::string("raw=") + L(LC16[ti], 16) + ",dst=" + L(LC16[di], 16)), b, ts);
+                }
+        }
+    for (int ti = 1; ti < 5; ti++)
+        for (int mv = 0; mv < 2; mv++) {
+            Builder b; uint32_t v = b.vec(LC16[ti] * 4);
+            Op o; o.kind = mv ? V_ELEM_MOVE : V_ELEM_COPY; o.a = v; o.b = 0;
+            size_t ts = b.target(o);
+            E.cell(nm(mv ? "vec_elem_move" : "vec_elem_copy", "", std::string("src=") + L(LC16[ti] * 4, 16)), b, ts);
+        }
+}
+
+void buffer_ops(Enumerator &E) {
+    for (int t = 0; t < 4; t++) {
+        const uint32_t *C = (t == 1 || t == 3) ? LC12 : LC16; unsigned lim = (t == 1 || t == 3) ? 12 : 16;
+        std::string tn = "t" + std::to_string(t);
+        for (int ai = 0; ai < 5; ai++) {
+            { Builder b; Op o; o.kind = B_NEW_PTRLEN; o.t = (uint8_t)t; o.a = SRC; o.b = C[ai]; size_t ts = b.target(o); E.cell(nm("buf_new_ptrlen", tn, std::string("len=") + L(C[ai], lim)), b, ts); }
+            { Builder b; Op o; o.kind = B_NEW_LITERAL; o.t = (uint8_t)t; o.a = SRC; o.b = C[ai]; size_t ts = b.target(o); E.cell(nm("buf_new_literal", tn, std::string("len=") + L(C[ai], lim)), b, ts); }
+            { Builder b; Op o; o.kind = B_NEW_FILL; o.t = (uint8_t)t; o.a = C[ai]; o.b = 9; size_t ts = b.target(o); E.cell(nm("buf_new_fill", tn, std::string("len=") + L(C[ai], lim)), b, ts); }
+            { Builder b; uint32_t s = b.buf(t, C[ai]); Op o; o.kind = B_NEW_COPY; o.t = (uint8_t)t; o.a = s; size_t ts = b.target(o); E.cell(nm("buf_new_copy", tn, std::string("src=") + L(C[ai], lim)), b, ts); }
+            { Builder b; uint32_t s = b.buf(t, C[ai]); Op o; o.kind = B_NEW_MOVE; o.t = (uint8_t)t; o.a = s; size_t ts = b.target(o); E.cell(nm("buf_new_move", tn, std::string("src=") + L(C[ai], lim)), b, ts); }
+            { Builder b; uint32_t s = b.buf(t, C[ai]); Op o; o.kind = B_READ; o.t = (uint8_t)t; o.a = s; o.b = 3; size_t ts = b.target(o); E.cell(nm("buf_to_std_string", tn, std::string("src=") + L(C[ai], lim)), b, ts); }
+            for (int di = 0; di < 5; di++) {
+                std::string cl = std::string("dst=") + L(C[di], lim) + ",arg=" + L(C[ai], lim);
+                { Builder b; uint32_t d = b.buf(t, C[di]); uint32_t s = b.buf(t, C[ai]); Op o; o.kind = B_ASSIGN_COPY; o.t = (uint8_t)t; o.a = d; o.b = s; size_t ts = b.target(o); E.cell(nm("buf_assign_copy", tn, cl), b, ts); }
+                { Builder b; uint32_t d = b.buf(t, C[di]); uint32_t s = b.buf(t, C[ai]); Op o; o.kind = B_ASSIGN_MOVE; o.t = (uint8_t)t; o.a = d; o.b = s; size_t ts = b.target(o); E.cell(nm("buf_assign_move", tn, cl), b, ts); }
+                { Builder b; uint32_t d = b.buf(t, C[di]); Op o; o.kind = B_ALLOCATE; o.t = (uint8_t)t; o.a = d; o.b = C[ai]; o.c = SRC; size_t ts = b.target(o); E.cell(nm("buf_allocate", tn, cl), b, ts); }
+                { Builder b; uint32_t d = b.buf(t, C[di]); Op o; o.kind = B_ALLOCATE_FILL; o.t = (uint8_t)t; o.a = d; o.b = C[ai]; o.c = 5; size_t ts = b.target(o); E.cell(nm("buf_allocate_fill", tn, cl), b, ts); }
+            }
+            { Builder b; uint32_t d = b.buf(t, C[ai]); Op o; o.kind = B_ASSIGN_COPY; o.t = (uint8_t)t; o.a = d; o.b = d; size_t ts = b.target(o); E.cell(nm("buf_assign_copy", tn + ",self", std::string("dst=") + L(C[ai], lim)), b, ts); }
+        }
+    }
+}
+
+void stream_ops(Enumerator &E) {
+    for (uint32_t sz : SSZ)
+        for (uint32_t add : SADD) {
+            std::string cl = "size=" + std::to_string(sz) + ",add=" + std::to_string(add);
+            { Builder b; uint32_t s = b.ss(sz); Op o; o.kind = SS_APPEND; o.a = s; o.b = SRC; o.c = add; size_t ts = b.target(o); E.cell(nm("ss_append", "", cl), b, ts); }
+            { Builder b; uint32_t s = b.ss(sz); Op o; o.kind = SS_APPEND_AUTO; o.a = s; o.b = 0; o.c = add; size_t ts = b.target(o); E.cell(nm("ss_append_auto", "", cl), b, ts); }
+            { Builder b; uint32_t s = b.ss(sz); Op o; o.kind = SS_APPEND_CHAR; o.a = s; o.b = 3; o.c = add; size_t ts = b.target(o); E.cell(nm("ss_append_char", "", cl), b, ts); }
+            for (unsigned form = 0; form < 17; form++)
+                for (int corrupt = 0; corrupt < 2; corrupt++) {
+                    if (corrupt && !(form == 1 || form == 2 || form == 3 || form == 7)) continue;
+                    Builder b; uint32_t s = b.ss(sz); Op o; o.kind = SS_SHL_TEXT; o.a = s; o.b = 0; o.c = add; o.d = form;
+                    if (corrupt) { o.fault = F_CORRUPT; o.fc = 0 | (2 << 8); }
+                    size_t ts = b.target(o);
+                    E.cell(nm("ss_shl_text", "form" + std::to_string(form) + (corrupt ? ",corrupted" : ""), cl), b, ts);
+                }
+            { Builder b; uint32_t s = b.ss(sz); uint32_t x = b.str(add); Op o; o.kind = SS_SHL_STR; o.a = s; o.b = x; size_t ts = b.target(o); E.cell(nm("ss_shl_str", "", cl), b, ts); }
+        }
+    for (uint32_t sz : {0u, 250u, 255u, 256u, 300u, 511u, 512u})
+        for (unsigned ty = 0; ty < 6; ty++)
+            for (uint32_t vi : {3u, 13u, 25u}) {
+                Builder b; uint32_t s = b.ss(sz); Op o; o.kind = SS_SHL_INT; o.a = s; o.b = vi; o.c = ty; size_t ts = b.target(o);
+                E.cell(nm("ss_shl_int", "ty" + std::to_string(ty) + ",v" + std::to_string(vi), "size=" + std::to_string(sz)), b, ts);
+            }
+    for (uint32_t sz : {0u, 250u, 256u, 300u, 510u}) {
+        for (unsigned f = 0; f < 2; f++) { Builder b; uint32_t s = b.ss(sz); Op o; o.kind = SS_SHL_FLOAT; o.a = s; o.b = 10; o.c = f; size_t ts = b.target(o); E.cell(nm("ss_shl_float", f ? "float" : "double", "size=" + std::to_string(sz)), b, ts); }
+        { Builder b; uint32_t s = b.ss(sz); Op o; o.kind = SS_SHL_CHAR; o.a = s; o.b = 1; size_t ts = b.target(o); E.cell(nm("ss_shl_char", "", "size=" + std::to_string(sz)), b, ts); }
+        { Builder b; uint32_t s = b.ss(sz); Op o; o.kind = SS_NEW_MOVE; o.a = s; size_t ts = b.target(o); E.cell(nm("ss_new_move", "", "size=" + std::to_string(sz)), b, ts); }
+        for (unsigned f = 0; f < 2; f++)
+            for (unsigned m = 0; m < 3; m++) { Builder b; uint32_t s = b.ss(sz); Op o; o.kind = SS_TO_STRING; o.a = s; o.b = f ? 3 : 0; o.c = m; size_t ts = b.target(o);
+                E.cell(nm("ss_to_string", std::string(f ? "latin1" : "utf8") + ",mode" + std::to_string(m), "size=" + std::to_string(sz)), b, ts); }
+        for (uint32_t sz2 : {0u, 300u}) { Builder b; uint32_t d = b.ss(sz2); uint32_t s = b.ss(sz); Op o; o.kind = SS_MOVE_ASSIGN; o.a = d; o.b = s; size_t ts = b.target(o);
+            E.cell(nm("ss_move_assign", "", "dst=" + std::to_string(sz2) + ",src=" + std::to_string(sz)), b, ts); }
+    }
+    { Builder b; Op o; o.kind = SS_NEW; size_t ts = b.target(o); E.cell(nm("ss_new", "", ""), b, ts); }
+}
+
+} // namespace
+
+const char *SK_kind_name(unsigned sk) { TextArg a; a.kind = sk % SK__COUNT; return a.kind_name(); }
+
+void enum_c19(unsigned part, unsigned parts, uint64_t from, EnumVisit visit, void *user, EnumTotals &tot) {
+    Enumerator E{part, parts ? parts : 1, visit, user, tot};
+    E.from = from;
+    buffer_ops(E);
+    stream_ops(E);
+    text_ops(E);
+    char_ops(E);
+    misc_string_ops(E);
+}
+
+} // namespace A
